@@ -1094,9 +1094,13 @@ func TestVerifC29Group(t *testing.T) {
 		add("two", c29bCfg{scripts: twoChan, stop: "stop", gate: 1, bound: 3})
 		add("dup", c29bCfg{router: true, scripts: dupRouter, slow: true, stop: "stop", gate: 1, bound: 2})
 		for _, pc := range []bool{false, true} {
-			add("pipe", c29bCfg{scripts: pipe5, pipeline: true, paced: true, prep: "sleep", parkSubmitted: true, advance: 2, postCommit: pc, bound: 3})
-			add("pipe", c29bCfg{scripts: pipe4, pipeline: true, paced: true, prep: "point", parkSubmitted: true, advance: 2, postCommit: pc, bound: 3})
-			add("pipe", c29bCfg{scripts: pipe4, pipeline: true, paced: true, prep: "sleep", slow: true, advance: 2, effect: 2, postCommit: pc, bound: 3})
+			b := 3
+			if pc {
+				b = 2 // the post-commit stage adds ~70 scheduling points per execution: bound 3 costs > 10 min per scenario
+			}
+			add("pipe", c29bCfg{scripts: pipe5, pipeline: true, paced: true, prep: "sleep", parkSubmitted: true, advance: 2, postCommit: pc, bound: b})
+			add("pipe", c29bCfg{scripts: pipe4, pipeline: true, paced: true, prep: "point", parkSubmitted: true, advance: 2, postCommit: pc, bound: b})
+			add("pipe", c29bCfg{scripts: pipe4, pipeline: true, paced: true, prep: "sleep", slow: true, advance: 2, effect: 2, postCommit: pc, bound: b})
 		}
 		add("pipe", c29bCfg{scripts: pipe4, pipeline: true, prep: "sleep", parkSubmitted: true, advance: 2, bound: 3})
 		add("pipe", c29bCfg{scripts: pipe4, pipeline: true, prep: "point", slow: true, advance: 2, bound: 3})
